@@ -3,11 +3,13 @@ package main
 // Statement execution (forward symbolic execution with forking and merging).
 
 import (
+	"context"
 	"fmt"
 	"go/ast"
 	"go/token"
 	"go/types"
 	"strings"
+	"time"
 )
 
 type OutKind int
@@ -305,7 +307,40 @@ func (v *V) execCond(fr *Frame, c ast.Expr, st *State) (ts, fs []*State) {
 	f := st.clone()
 	t.assume(b.S)
 	f.assume(not(b.S))
+	if v.spec.Prune && v.dry == 0 {
+		// drop branches that the path condition rules out (e.g. the re-seek branch of a reader
+		// under a forward-target precondition): their code is then not translated at all
+		if !v.feasible(t) {
+			ts = nil
+		} else {
+			ts = []*State{t}
+		}
+		if !v.feasible(f) {
+			fs = nil
+		} else {
+			fs = []*State{f}
+		}
+		return ts, fs
+	}
 	return []*State{t}, []*State{f}
+}
+
+// feasible: false only when a solver shows the path condition unsatisfiable (quickly).
+func (v *V) feasible(st *State) bool {
+	// the branch condition is the last conjunct: it is infeasible iff the rest implies its negation;
+	// only the hypotheses related to the condition are sent (a subset being contradictory suffices)
+	if len(st.pc) == 0 {
+		return true
+	}
+	cond := st.pc[len(st.pc)-1]
+	o := &Obl{PC: append(append([]string(nil), st.pc[:len(st.pc)-1]...), st.guards...), Goal: not(cond), Expect: "unsat", NDecls: len(v.d.lines), NoPre: true}
+	script := buildScript(v.d.lines, v.axioms, o, false, true, v.d.mode)
+	r := runSolver(context.Background(), solvers[0], script, 3*time.Second)
+	if r.status == "unsat" {
+		v.pruned++
+		return false
+	}
+	return true
 }
 
 var constantOne = mustConst("1")
